@@ -239,6 +239,7 @@ func c12R1(c *Ctx) {
 			continue
 		}
 		call, ok := res.(TCall)
+		inPlaceKind := ""
 		if !cp.IsNil && (!ok || call.Fun == nil) {
 			// a map/slice flavour converted in place (an inlined private helper): the same element-wise construction the From-constructors use
 			_, isMap := cp.T.Underlying().(*types.Map)
@@ -278,11 +279,18 @@ func c12R1(c *Ctx) {
 				}
 			}
 		}
-		if !ok || call.Fun == nil {
+		if !cp.IsNil && (!ok || call.Fun == nil) {
+			// the wrapper built in place: &atInt{val: int(v)} — the constructor's body at its only call site
+			if kind, arg, isLit := c.wrapperLiteral(res); isLit && len(p.Effects()) == 0 {
+				call, ok = TCall{Args: []Term{arg}}, true
+				inPlaceKind = kind
+			}
+		}
+		if !ok || (call.Fun == nil && inPlaceKind == "") {
 			ob.Fail("arm does not return a constructor call")
 			continue
 		}
-		if !cp.IsNil {
+		if !cp.IsNil && inPlaceKind == "" {
 			switch u := cp.T.Underlying().(type) {
 			case *types.Map:
 				good := call.Fun.Name() == "NewObjectFrom" && call.Fun.Pkg() == c.Types && len(call.Args) == 1 && opnd(call.Args[0])
@@ -298,7 +306,10 @@ func c12R1(c *Ctx) {
 				continue
 			}
 		}
-		kind, isCtor := c.wrapperCtor(call.Fun)
+		kind, isCtor := inPlaceKind, inPlaceKind != ""
+		if !isCtor {
+			kind, isCtor = c.wrapperCtor(call.Fun)
+		}
 		if !isCtor {
 			ob.Fail("arm does not call a wrapper constructor (a function building exactly one scalar wrapper from its parameter)")
 			continue
@@ -407,6 +418,29 @@ func c12R1(c *Ctx) {
 	}
 	sort.Strings(ks)
 	c.Ob("C12.R1", "parseVal/kinds", fd.Pos()).Check(len(ks) == 7, "arms cover exactly the seven kinds "+sprint(ks), "arms cover kinds "+sprint(ks)+", expected seven")
+}
+
+// wrapperLiteral: t is &W{payload} (or W{payload}) for a scalar wrapper type W with exactly one element given; returns W's kind and the payload term.
+func (c *Ctx) wrapperLiteral(t Term) (kind string, payload Term, ok bool) {
+	if ad, isAd := t.(TAddr); isAd {
+		t = ad.X
+	}
+	lit, isLit := t.(TLit)
+	if !isLit || lit.Type == nil || len(lit.Elts) != 1 {
+		return "", nil, false
+	}
+	n, isN := lit.Type.(*types.Named)
+	if !isN {
+		return "", nil, false
+	}
+	for _, w := range c.Inv().Wrappers {
+		if w.Obj() == n.Obj() {
+			if st, isSt := w.Underlying().(*types.Struct); isSt && st.NumFields() == 1 {
+				return c.wrapperKind(w), lit.Elts[0], true
+			}
+		}
+	}
+	return "", nil, false
 }
 
 func caseTypes(c *Ctx, ts *ast.TypeSwitchStmt, pred func(types.Type) bool) []string {
